@@ -63,6 +63,10 @@ func checkResume(r *Run, twinOuts string, spec []CrashSpec) []Violation {
 	}
 	// (1) bounded liveness: the last incarnation completes
 	cls := r.Class()
+	if cls == "step-budget" {
+		r.Probes["step-budget-exhausted"]++
+		return out
+	}
 	if cls != "complete" {
 		// Was the first interruption inside Runtime.InvokePipeline, i.e. before the
 		// last top-level metadata file (_timestamp) of a new pipestance was written?
